@@ -110,8 +110,10 @@ def failing_theorems(module, build_out):
     except OSError:
         return ['<module missing>']
     out = []
-    for m in re.finditer(re.escape(rel) + r':(\d+):\d+: error', build_out):
-        ln = int(m.group(1))
+    for m in re.finditer(r'(error: )?' + re.escape(rel) + r':(\d+):\d+:( error)?', build_out):
+        if not (m.group(1) or m.group(3)):
+            continue
+        ln = int(m.group(2))
         name = None
         for i in range(min(ln, len(lines)) - 1, -1, -1):
             mm = re.match(r'\s*(?:private\s+)?(?:theorem|example|def|instance)\s*([A-Za-z_][\w\.\']*)?', lines[i])
